@@ -21,6 +21,11 @@ theorem c03_nothing_after_close (calls : List SN.Call) (sched : List Nat) :
 /-- the closed-tests the theorem rests on, as read from the source on this run -/
 theorem gen_chk_under_lock : Gen.Sender.readFromChkUnderLock = true ∧ Gen.Sender.writeChkUnderLock = true := by decide
 
+/-- a closing frame is always one `obfuscate` accepts (it refuses an empty payload): every place that builds one draws
+`int(<random byte>) + 1` bytes of padding. With a length that can be 0, one close in 256 sends nothing and the peer
+waits for ever ("only afterwards gets the broken-stream error"). -/
+theorem gen_closing_payload : Gen.Sender.closingPayloadNeverEmpty = true := by decide
+
 end C03
 
 #print axioms C03.c03_nothing_after_close
